@@ -138,7 +138,14 @@ def equality_test(actual, expected, _exact_strings, _delta):
     if ((isinstance(expected, float) and isinstance(actual, (float, int))) or
             (isinstance(actual, float) and isinstance(expected, (float, int)))):
         error = _delta
-        return abs(expected - actual) < error
+        # Equal numbers are equal whatever the tolerance (infinities, a tolerance of zero), and an
+        # integer too large to be turned into a float is not within it
+        if expected == actual:
+            return True
+        try:
+            return abs(expected - actual) < error
+        except OverflowError:
+            return False
     # Other numerics
     elif isinstance(expected, Number) and isinstance(actual, Number) and isinstance(expected, type(actual)):
         return expected == actual
